@@ -608,10 +608,42 @@ def _store_root(t, allow_name=False):
     return None, None
 
 
+def local_aliases(pkg, fn):
+    """local names bound (by a plain assignment anywhere in the function) to a module-level / class-level object:
+    mutating the local mutates the shared object"""
+    cache = pkg.__dict__.setdefault("_aliases", {})
+    if fn.key not in cache:
+        out = {}
+        for n in _own_nodes(fn.node):
+            if isinstance(n, ast.Assign) and len(n.targets) == 1 and isinstance(n.targets[0], ast.Name):
+                v = n.value
+                src = None
+                if isinstance(v, ast.Name) and v.id != n.targets[0].id:
+                    r = pkg.resolve_name(fn, v.id)
+                    if r[0] == "var":
+                        src = "alias of module-level %s.%s" % (r[1], r[2])
+                elif isinstance(v, ast.Attribute):
+                    d = pkg.dotted(v)
+                    if d and len(d) == 2:
+                        r = pkg.resolve_name(fn, d[0])
+                        if r[0] == "mod" and r[1] in pkg.modules and d[1] in pkg.module_vars.get(r[1], ()):
+                            src = "alias of module-level %s.%s" % (r[1], d[1])
+                        elif r[0] == "class" and d[1] in pkg.class_vars.get((r[1], r[2]), ()):
+                            src = "alias of class-level %s.%s.%s" % (r[1], r[2], d[1])
+                if src:
+                    out[n.targets[0].id] = src
+        cache[fn.key] = out
+    return cache[fn.key]
+
+
 def shared_kind(pkg, fn, name_node):
     """is this name (at the root of a mutated expression) process-wide state?  -> description or None"""
     nm = name_node.id
     r = pkg.resolve_name(fn, nm)
+    if r[0] == "local":
+        al = local_aliases(pkg, fn).get(nm)
+        if al:
+            return al
     if r[0] == "var":
         return "module-level %s.%s" % (r[1], r[2])
     if r[0] == "mod":
